@@ -1572,10 +1572,11 @@ func (p *Parser) parseSwitchStatement(scriptName string) (*ast.SwitchStatement, 
 		operandToken.Literal = strings.Join(parts, " ")
 		statement.Operand = operandToken
 	} else {
-		statement.Operand = token.Token{
-			Type:    token.IDENT,
-			Literal: *autoVarOperand,
-		}
+		// Keep the position of the auto-var command, so line markers name its line.
+		operandToken := preambleStatement.Token
+		operandToken.Type = token.IDENT
+		operandToken.Literal = *autoVarOperand
+		statement.Operand = operandToken
 		if err := p.expectPeek(token.RPAREN); err != nil {
 			return nil, nil, nil, NewParseError(originalToken, "missing closing parenthesis of switch statement value")
 		}
@@ -1851,10 +1852,11 @@ func (p *Parser) parseLeafBooleanExpression(scriptName string) (*ast.OperatorExp
 			return nil, nil, err
 		}
 		operatorExpression.Type = token.VAR
-		operatorExpression.Operand = token.Token{
-			Type:    token.IDENT,
-			Literal: *autoVarOperand,
-		}
+		// Keep the position of the auto-var command, so line markers name its line.
+		operandToken := preambleStatement.Token
+		operandToken.Type = token.IDENT
+		operandToken.Literal = *autoVarOperand
+		operatorExpression.Operand = operandToken
 		operatorExpression.PreambleStatement = preambleStatement
 		resultImpData.add(autoVarImpData)
 	}
